@@ -657,39 +657,45 @@ def handler(kind, v, lay, field, flat, src, body):
             fail("%s: string handler on non-string member %s" % (kind, m.group(1)))
         return ".string %d" % fi
     # colour
-    m = re.fullmatch(r"(?:if\(!src\)\{%s->(\w+)=%s\.(\w+);return 0;\})?return mpt_color_pset\(&%s->(\w+),src\);" % (o, d, o), t)
+    m = re.fullmatch(r"(?:if\(!src\)\{%s->([\w.]+)=%s\.([\w.]+);return 0;\})?return mpt_color_pset\(&%s->(\w+),src\);" % (o, d, o), t)
     if m:
         fi = field(m.group(3), "colour")
         if flat[fi][1] != "col":
             fail("%s: colour handler on member %s" % (kind, m.group(3)))
-        if m.group(1) is not None and not (m.group(1) == m.group(2) == m.group(3)):
-            fail("%s: colour handler resets %s from %s for %s" % (kind, m.group(1), m.group(2), m.group(3)))
-        return ".colour %d %s" % (fi, "true" if m.group(1) is not None else "false")
+        rs = "none"
+        if m.group(1) is not None:
+            if m.group(1) != m.group(2):
+                fail("%s: colour handler resets %s from the default of %s" % (kind, m.group(1), m.group(2)))
+            rs = "(some %d)" % field(m.group(1), "colour reset")
+        return ".colour %d %s" % (fi, rs)
     # line attributes
-    m = re.fullmatch(r"(?:if\(!src\)\{%s->attr\.(\w+)=%s\.attr\.(\w+);return 0;\})?return mpt_lattr_(\w+)\(&%s->attr,src\);" % (o, d, o), t)
+    m = re.fullmatch(r"(?:if\(!src\)\{%s->([\w.]+)=%s\.([\w.]+);return 0;\})?return mpt_lattr_(\w+)\(&%s->attr,src\);" % (o, d, o), t)
     if m:
         which = m.group(3)
-        if m.group(1) is not None and not (m.group(1) == m.group(2) == which):
-            fail("%s: attribute handler resets %s from %s for %s" % (kind, m.group(1), m.group(2), which))
+        rs = "none"
+        if m.group(1) is not None:
+            if m.group(1) != m.group(2):
+                fail("%s: attribute handler resets %s from the default of %s" % (kind, m.group(1), m.group(2)))
+            rs = "(some %d)" % field(m.group(1), "attribute reset")
         la = lattr_info(lay.repo)
         if which not in la:
             fail("%s: unknown line attribute setter mpt_lattr_%s" % (kind, which))
         fi = field("attr." + which, "lattr")
         df, lo, hi = la[which]
-        return ".lattr %d %d %d %d %s" % (fi, df, lo, hi, "true" if m.group(1) is not None else "false")
+        return ".lattr %d %d %d %d %s" % (fi, df, lo, hi, rs)
     # axis / line position helpers
     m = re.fullmatch(r"return setPosition\(&%s->([\w.]+),src,%s\.([\w.]+)\);" % (o, d), t)
     if m and kind == "axis":
         if m.group(1) != m.group(2):
             fail("axis: setPosition default of another member")
-        check_helper(src, "setPosition", AXIS_SETPOS)
+        check_helper(src, "setPosition", AXIS_SETPOS, "axis_property.c:")
         fi = field(m.group(1), "setPosition")
         if flat[fi][1] != "chr":
             fail("axis: setPosition on non-character member")
         return ".axisPos %d" % fi
     m = re.fullmatch(r"return setPosition\(&%s->([\w.]+),src\);" % o, t)
     if m and kind == "line":
-        check_helper(src, "setPosition", LINE_SETPOS)
+        check_helper(src, "setPosition", LINE_SETPOS, "line_property.c:")
         fi = field(m.group(1), "setPosition")
         if flat[fi][1] != "f32":
             fail("line: setPosition on non-float member")
@@ -706,7 +712,7 @@ def handler(kind, v, lay, field, flat, src, body):
         if len(lim) != 2:
             fail("%s: range initialiser" % kind)
         lo, hi = [dyadic(float(x[1]), False) for x in lim]
-        return ".fpoint %d %s %s" % (fi, lean_fl(*lo), lean_fl(*hi))
+        return ".fpoint %d %s %s %s" % (fi, lean_fl(*lo), lean_fl(*hi), "true" if m.group(5) == "len" else "false")
     if kind == "axis" and t == AXIS_INTERVALS:
         return ".intervals %d %d %d" % (field("intv", "intervals"), field("format", "intervals"), lay.enums["TransformLg"])
     if kind == "graph" and t == GRAPH_ALIGN:
@@ -718,9 +724,17 @@ def handler(kind, v, lay, field, flat, src, body):
     fail("%s: unsupported handler in the setter chain: %r" % (kind, t[:160]))
 
 
-def check_helper(src, name, template):
+STALE = []
+
+
+def check_helper(src, name, template, where=""):
+    """helper functions that are modelled by hand: a changed text does not stop the translation (the tables are
+    still valid) but is recorded; Props/C20.lean proves `staleHelpers = []`, so the proof obligation breaks and
+    the correspondence run decides whether the change matters"""
     if norm(function_body(src, name)) != template:
-        fail("helper %s differs from the modelled form" % name)
+        tag = where + name
+        if tag not in STALE:
+            STALE.append(tag)
 
 
 AXIS_SETPOS = norm("""
@@ -811,7 +825,7 @@ def lattr_info(repo):
         if len(vals) != 3 or any(x[0] != "int" or not 0 <= x[1] <= 255 for x in vals):
             fail("lattr_set.c: unsupported limits of mpt_lattr_%s" % m.group(1))
         out[m.group(1)] = tuple(x[1] for x in vals)
-    check_helper(src, "lattr_pset", LATTR_PSET)
+    check_helper(src, "lattr_pset", LATTR_PSET, "lattr_set.c:")
     _LATTR[repo] = out
     return out
 
@@ -853,6 +867,8 @@ def colour_table(repo):
 # ------------------------------------------------------------------------------------------ output
 
 def generate(repo):
+    del STALE[:]
+    _LATTR.clear()
     lay = Layout(repo)
     lay.repo = repo
     kinds = [extract_kind(repo, lay, k) for k in KINDS]
@@ -892,6 +908,9 @@ def generate(repo):
         L.append("  dups := [%s]" % ", ".join(str(x) for x in k.dups))
     L.append("")
     L.append("def kinds : List Kind := [%s]" % ", ".join(k.name for k in kinds))
+    L.append("")
+    L.append("/-- hand-modelled helper functions whose source text differs from the modelled form -/")
+    L.append("def staleHelpers : List String := [%s]" % ", ".join('"%s"' % x for x in STALE))
     L.append("")
     L.append("end Mpt.Layout.Gen")
     return "\n".join(L) + "\n"
